@@ -44,6 +44,10 @@ ASSUMPTIONS = [
     "notifications are accepted; a change to an equal value of another type (1 -> True -> 1.0) is not a change, and a "
     "staleness that exists only because of such a replacement (decided by re-evaluating the reference with these "
     "replacements undone) is not flagged",
+    "change histories include magnitude bursts: a player or machine variable is set to a value of extreme magnitude "
+    "(1e9..2.5e15 ints/floats, negative, 1e-9/1e-3 floats) and then moved by steps <= 1e-9 of that magnitude "
+    "(add_pv/add_mv); every such step that changes the reference value is a freshness decision (clause fresh_tiny_step); "
+    "templates whose operands become too large to evaluate (** / * guards) are not subscribed until that changes",
     "values are int/float/bool/str/None as the property quantifies; list/dict valued player or machine variables are "
     "not generated (the accrual's list-valued `value` is read through a literal index only)",
     "device attributes covered: counter value/enabled/completed (system-wide, mode, persisted), accrual value[i], switch "
@@ -57,9 +61,9 @@ TIERS = {
 }
 MIN_EVALS = {
     "quick": {"eval": 40000, "eval_bool": 40000, "sub_value": 15000, "cond_handler": 4000, "cond_chain": 1000, "fresh": 1500,
-              "player_e2e": 8000},
+              "fresh_tiny_step": 100, "player_e2e": 8000},
     "thorough": {"eval": 2000000, "eval_bool": 2000000, "sub_value": 800000, "cond_handler": 200000, "fresh": 90000,
-                 "player_e2e": 400000},
+                 "fresh_tiny_step": 6000, "player_e2e": 400000},
 }
 
 
@@ -173,9 +177,29 @@ def _gen_ops(rng, n):
             st["mode"] = False
         ops.append(op)
 
+    def burst():
+        """A variable takes a value of extreme magnitude and then moves by steps that are tiny relative to it."""
+        base, steps = rng.choice(R.MAGNITUDES)
+        if st["game"] and rng.random() < 0.65:
+            who, var = rng.choice(["cur", "cur", 0, 1]), rng.choice(R.PVARS)
+            ops.append(["set_pv", who, var, base])
+            for _ in range(rng.randint(2, 4)):
+                if rng.random() < 0.3:
+                    ops.append(["post", rng.choice(_POSTS)])
+                ops.append(["add_pv", who, var, rng.choice(steps)])
+        else:
+            var = rng.choice(R.MVARS)
+            ops.append(["set_mv", var, base])
+            for _ in range(rng.randint(2, 4)):
+                if rng.random() < 0.3:
+                    ops.append(["set_setting", "st0", rng.choice([1, 2, 3])])
+                ops.append(["add_mv", var, rng.choice(steps)])
+
     while len(ops) < n:
         x = rng.random()
-        if not st["game"] and x < 0.30:
+        if rng.random() < 0.045:
+            burst()
+        elif not st["game"] and x < 0.30:
             life(["start_game"])
         elif st["game"] and not st["mode"] and x < 0.25:
             life(["post", "m1_start"])
@@ -220,7 +244,10 @@ def _gen_cond(rng, depth=0):
         y = rng.random()
         if y < 0.2:
             return leaf
-        lit = ast.Constant(value=rng.choice([0, 1, 2, 3, 5, True, False, None, "a", 1.5]))
+        lit = rng.choice([0, 1, 2, 3, 5, True, False, None, "a", 1.5])
+        if rng.random() < 0.15:
+            lit = rng.choice(R.BIG_THRESHOLDS)      # crossed only by the tiny steps of a magnitude burst
+        lit = R._const(lit)
         return ast.Compare(left=leaf, ops=[rng.choice(R.CMPOPS)()], comparators=[lit])
     if x < 0.85:
         return ast.BoolOp(op=rng.choice([ast.And, ast.Or])(),
@@ -408,6 +435,7 @@ class _World:
         """Returns True when the operation was applicable and performed."""
         m, t = self.m, self.vm.t
         k = op[0]
+        self.tiny_step = False
         if k == "set_mv":
             m.variables.set_machine_var(op[1], op[2])
         elif k == "remove_mv":
@@ -433,6 +461,12 @@ class _World:
             if not m.game:
                 return False
             t.stop_game()
+        elif k == "add_mv":
+            cur = m.variables.get_machine_var(op[1])
+            if isinstance(cur, bool) or not isinstance(cur, (int, float)) or cur + op[2] == cur:
+                return False
+            self.tiny_step = abs(op[2]) <= 1e-9 * abs(cur + op[2])
+            m.variables.set_machine_var(op[1], cur + op[2])
         elif k in ("set_pv", "add_pv"):
             p = self._player(op[1])
             if p is None:
@@ -441,8 +475,9 @@ class _World:
                 setattr(p, op[2], op[3])
             else:
                 cur = p.vars.get(op[2], 0)
-                if isinstance(cur, bool) or not isinstance(cur, (int, float)):
+                if isinstance(cur, bool) or not isinstance(cur, (int, float)) or cur + op[3] == cur:
                     return False
+                self.tiny_step = abs(op[3]) <= 1e-9 * abs(cur + op[3])
                 setattr(p, op[2], cur + op[3])
         elif k == "post":
             m.events.post(op[1])
@@ -883,10 +918,10 @@ def _run_sub(case):
     from vlib import c16_ref as R
     from vlib.boot import VMachine
 
-    clauses = {"sub_value": 0, "fresh": 0, "player_e2e": 0}
+    clauses = {"sub_value": 0, "fresh": 0, "fresh_tiny_step": 0, "player_e2e": 0}
     obs = {"ops_applied": 0, "ops_skipped": 0, "notified": 0, "notified_and_changed": 0, "resubscribed": 0,
            "fresh_eval_raised": 0, "templates_dropped": 0, "changed_but_mpf_equal": 0, "only_type_changed": 0,
-           "player_reevaluations": 0}
+           "player_reevaluations": 0, "skipped_too_big": 0}
     viol = []
     default = _Sentinel()
     conds = []
@@ -934,6 +969,11 @@ def _run_sub_body(case, conds, clauses, obs, viol, default, restore):
             e["leafvals"] = leaf_vals(e["leaves"])
             e["keyvals"] = {l[3]: mirrors.read_key(l[3]) for l in e["leaves"]}
             e["ops_since"] = []
+            if ref[0] == R.SKIP:
+                # operands too large to evaluate (the real template would attempt the same ** or *): wait for a change
+                e["pending"] = True
+                obs["skipped_too_big"] += 1
+                return
             got = _call(e["t"].evaluate_and_subscribe, {})
             clauses["sub_value"] += 1
             if got[0] == "raise":
@@ -1069,6 +1109,8 @@ def _run_sub_body(case, conds, clauses, obs, viol, default, restore):
                 done = e["fut"].done()
                 if changed:
                     clauses["fresh"] += 1
+                    if world.tiny_step:      # the variable moved by <= 1e-9 of its magnitude and the value followed
+                        clauses["fresh_tiny_step"] += 1
                 if done:
                     obs["notified"] += 1
                     if changed:
